@@ -431,7 +431,7 @@ func GenModel(t *rapid.T, opts ModelOpts) (*t1ref.Font, map[string]bool) {
 			f.Enc[code] = name
 		}
 	}
-	// accented composites
+	// accented composites (several of them may share a base or an accent)
 	if !opts.NoSeac && rapid.IntRange(0, 2).Draw(t, "seac") == 0 {
 		var cands []*t1ref.Glyph
 		for _, g := range f.Glyphs {
@@ -440,10 +440,17 @@ func GenModel(t *rapid.T, opts ModelOpts) (*t1ref.Font, map[string]bool) {
 			}
 		}
 		if len(cands) >= 2 && (f.EncKind == t1ref.EncStandard || opts.SeacOwnEncoding) {
+			ncomp := rapid.IntRange(1, 4).Draw(t, "ncomposites")
 			base := cands[rapid.IntRange(0, len(cands)-1).Draw(t, "seacbase")]
-			accent := cands[rapid.IntRange(0, len(cands)-1).Draw(t, "seacaccent")]
-			name := "Composite" + strconv.Itoa(rapid.IntRange(0, 9).Draw(t, "seacname"))
-			if !seen[name] {
+			for k := 0; k < ncomp; k++ {
+				if k > 0 && rapid.IntRange(0, 2).Draw(t, "newbase") == 0 {
+					base = cands[rapid.IntRange(0, len(cands)-1).Draw(t, "seacbase")]
+				}
+				accent := cands[rapid.IntRange(0, len(cands)-1).Draw(t, "seacaccent")]
+				name := "Composite" + strconv.Itoa(rapid.IntRange(0, 9).Draw(t, "seacname"))
+				if seen[name] {
+					continue
+				}
 				seen[name] = true
 				// section 10.1: asb = the accent's own side bearing = the
 				// composite's side bearing
@@ -452,6 +459,9 @@ func GenModel(t *rapid.T, opts ModelOpts) (*t1ref.Font, map[string]bool) {
 					Base: stdCode[base.Name], Accent: stdCode[accent.Name]}
 				f.Glyphs = append(f.Glyphs, c)
 				feat["seac"] = true
+				if k > 0 {
+					feat["seac-several"] = true
+				}
 			}
 		}
 	}
